@@ -280,6 +280,10 @@ def run_shard(spec):
                     for tail in (["now"], ["drop", "now"], ["close", "now"]):
                         sc = scenario("tcp", "tcp", spec["ka"], 1, R, tail * 3, connect=list(cs))
                         run_case(sc, part)
+                    if depth <= 2 and R <= 2:
+                        # the 5 s bound on a connection attempt does not depend on the configured response timeout
+                        for T in (7, 0.2):
+                            run_case(scenario("tcp", "tcp", spec["ka"], T, R, ["now"] * 3, connect=list(cs)), part)
     elif mode == "random":
         rnd = random.Random(spec["seed"])
         for _ in range(spec["n"]):
